@@ -64,6 +64,10 @@ def cases(tier, seed):
         cs.append({'targets': list(perm), 'threads': 1, 'fmt': 'text', 'rank': True})
     for perm in itertools.permutations(['!early-close', 'warn-only', 'terrapin'], 3):
         cs.append({'targets': list(perm), 'threads': 1, 'fmt': 'text', 'rank': True})
+    # the custom modulus test (-g) over a targets file: servers with and without a usable group exchange, in every position
+    for i, perm in enumerate([['gex2048', 'no-probes', 'gex2048-openssh'], ['no-probes', 'gex2048', 'gex1024'], ['gex2048', 'gex2048-openssh', 'no-probes'], ['no-probes'], ['gex2048', 'warn-only']]):
+        for th in ((1, 32) if tier == 'thorough' else ([1, 32][i % 2],)):
+            cs.append({'kind': 'gexopt', 'targets': perm, 'threads': th, 'bits': 2048})
     # an internal error (status 255) outranks everything, wherever it completes
     for perm in itertools.permutations(['!badname', '!refused', 'warn-only'], 3):
         cs.append({'targets': list(perm), 'threads': 1, 'fmt': 'text', 'rank': True})
@@ -99,7 +103,37 @@ def fail_status(f, fmt):
     return r.status
 
 
+def run_gexopt(c):
+    """-T together with the custom modulus test (-g): every target that serves a group exchange gets its result line, targets without a usable group exchange cost the others nothing, the status is the highest ranked one (0 here)."""
+    names = c['targets']
+    targets = [make_target(n) for n in names]
+    viol, counters = [], {'multi_runs': 1, 'runs_with_the_modulus_test_option': 1}
+    try:
+        res = multi.run_multi(targets, c['threads'], 'text', tmo=2, timeout=150, extra=['-g', str(c['bits'])])
+        r = res['run']
+        if r.timed_out:
+            return {'verdict': 'inconclusive', 'why': 'watchdog'}
+        from harness import peer as peermod
+        # a server answers the request (bits, bits, bits) or refuses it, by its moduli policy; one result line per group-exchange algorithm it lists (two in these archetypes)
+        with_gex = sum(1 for t in targets if t.script and t.script.get('gex') and peermod.moduli_answer(t.script['gex'], c['bits'], c['bits'], c['bits']) is not None)
+        counters['targets_answering_the_modulus_test'] = with_gex
+        lines = [l for l in r.out.splitlines() if '-->' in l and 'diffie-hellman-group-exchange' in l]
+        counters['modulus_result_lines'] = len(lines)
+        if 'Traceback' in r.out + r.err or r.status not in (0, 1, 2, 3):
+            viol.append(_v('C08/internal-error:modulus-test-option', 'a multi-target run with the modulus test option ended in a traceback / the internal error status', status=r.status, tail=(r.out + r.err)[-400:], targets=names))
+        elif r.status != 0:
+            viol.append(_v('C08/status-wrong:modulus-test-option', 'every target is fine, yet the status of the run is not 0', status=r.status, targets=names))
+        if len(lines) != 2 * with_gex:
+            viol.append(_v('C08/result-lost:modulus-test-option', 'a target that serves group exchange did not get its result lines', got=len(lines), want=2 * with_gex, targets=names, threads=c['threads']))
+    finally:
+        for t in targets:
+            t.stop()
+    return {'violations': viol, 'counters': counters, 'nontrivial': True, 'sample': {'case': c, 'lines': lines[:4], 'status': r.status}, 'sample_kind': 'gexopt'}
+
+
 def run_case(c):
+    if c.get('kind') == 'gexopt':
+        return run_gexopt(c)
     names = c['targets']
     targets = [make_target(n) for n in names]
     viol, counters = [], {'multi_runs': 1}
